@@ -26,7 +26,7 @@ import (
 //	nasTestpacket.Get…(…)              event ctor    → []byte named nas#k
 //	tglib.GetNasPdu(ue, dl)            event naspdu  → *nas.Message named naspdu#k
 //	ue.DeriveRESstarAndSetKey(…)       event derive  → []byte named res#k
-//	stgutg.ManageError(msg, err)       nothing (C19 decides the error discipline)
+//	os.Exit, log.Fatal*                the path ends (ManageError is entered: it returns only for a nil error)
 //
 // k is the position of the call in the path's trace, so two calls never share a name. Every
 // other callee outside package stgutg is an uninterpreted function of its arguments; when it can
@@ -71,9 +71,10 @@ type xModel struct {
 	err   string // non-empty: the evaluation did not finish or was not exact
 }
 
-var xLeaf = map[string]bool{"EncodeSuci": true, "DecodePDUSessionNASPDU": true, "DecodePDUSessionResourceSetupRequestTransfer": true, "ManageError": true, "Min": true}
+var xLeaf = map[string]bool{"EncodeSuci": true, "DecodePDUSessionNASPDU": true, "DecodePDUSessionResourceSetupRequestTransfer": true, "Min": true}
 
 var xModelCache = map[*ssa.Function]*xModel{}
+var xModelErrCache = map[*ssa.Function]*xModel{}
 
 func xKind(name string) (kind, prefix string) {
 	switch {
@@ -134,7 +135,7 @@ func writesUEIds(fn *ssa.Function, memo map[*ssa.Function]int, depth int) bool {
 	return res
 }
 
-func namedRet(name string, t types.Type) core.AVal {
+func namedRet(name string, t types.Type, errs bool) core.AVal {
 	mk := func(t types.Type) core.AVal {
 		switch t.Underlying().(type) {
 		case *types.Slice:
@@ -142,6 +143,10 @@ func namedRet(name string, t types.Type) core.AVal {
 		case *types.Pointer:
 			return core.AVal{K: core.APtr, Path: name, NonNil: true}
 		case *types.Interface:
+			if errs {
+				// fail-stop model: the error is a value of its own, nil or not as the path finds out
+				return core.AVal{K: core.AUnknown, Path: "err:" + name}
+			}
 			return core.NilArg() // error results: the success path (ManageError ends the other one)
 		}
 		return core.ArgNamed(name, t)
@@ -161,12 +166,21 @@ func namedRet(name string, t types.Type) core.AVal {
 	return mk(t)
 }
 
-func driverModelX(c *core.Ctx, fn *ssa.Function) *xModel {
-	if m, ok := xModelCache[fn]; ok {
+func driverModelX(c *core.Ctx, fn *ssa.Function) *xModel { return driverModelXE(c, fn, false) }
+
+// driverModelXE with errs set is the fail-stop variant: the error results of the library
+// boundaries (and of Read/Write/ConnectToAmf) are unknown values, so every test of one forks
+// the path, and a path ends where the process does.
+func driverModelXE(c *core.Ctx, fn *ssa.Function, errs bool) *xModel {
+	cache := xModelCache
+	if errs {
+		cache = xModelErrCache
+	}
+	if m, ok := cache[fn]; ok {
 		return m
 	}
 	m := &xModel{fn: fn}
-	xModelCache[fn] = m
+	cache[fn] = m
 	if i := ueParamIndex(fn); i >= 0 {
 		m.ue = fmt.Sprintf("p%d", i)
 	}
@@ -181,15 +195,24 @@ func driverModelX(c *core.Ctx, fn *ssa.Function) *xModel {
 		return f.Pkg.Pkg.Path() == pStg && !xLeaf[f.Name()]
 	}
 	ex.OnCall = func(ev *core.AEvent, mem *core.AMem) (core.AVal, bool) {
-		if ev.Callee == pStg+".ManageError" {
+		if ev.Callee == "os.Exit" || strings.HasPrefix(ev.Callee, "log.Fatal") || strings.HasPrefix(ev.Callee, "log.Panic") {
+			ev.Stop = true // the process ends here: ManageError on an error the path found non-nil
 			return core.AVal{}, true
 		}
 		if _, pre := xKind(ev.Callee); pre != "" {
-			return namedRet(fmt.Sprintf("%s#%d", pre, ev.Index), ev.Site.Type()), true
+			return namedRet(fmt.Sprintf("%s#%d", pre, ev.Index), ev.Site.Type(), errs && pre == "rx"), true
 		}
 		switch ev.Callee {
 		case fnSctpWrite, fnSctpRead:
-			return core.AVal{K: core.ATuple, Elems: []core.AVal{core.ArgNamed(fmt.Sprintf("n#%d", ev.Index), types.Typ[types.Int]), core.NilArg()}}, true
+			e := core.NilArg()
+			if errs {
+				e = core.AVal{K: core.AUnknown, Path: fmt.Sprintf("err:io#%d", ev.Index)}
+			}
+			return core.AVal{K: core.ATuple, Elems: []core.AVal{core.ArgNamed(fmt.Sprintf("n#%d", ev.Index), types.Typ[types.Int]), e}}, true
+		case pTglib + ".ConnectToAmf":
+			if errs {
+				return core.AVal{K: core.ATuple, Elems: []core.AVal{{K: core.APtr, Path: fmt.Sprintf("conn#%d", ev.Index), NonNil: true}, {K: core.AUnknown, Path: fmt.Sprintf("err:conn#%d", ev.Index)}}}, true
+			}
 		}
 		if ev.Fn != nil && ex.Enter(ev.Fn) && len(ev.Fn.Blocks) > 0 {
 			return core.AVal{}, false
@@ -210,7 +233,7 @@ func driverModelX(c *core.Ctx, fn *ssa.Function) *xModel {
 	}
 	for i := range outs {
 		o := &outs[i]
-		if o.Panicked || o.Stopped {
+		if o.Panicked || (o.Stopped && !errs) {
 			continue
 		}
 		p := &xPath{out: o, byName: map[string]*core.AEvent{}}
